@@ -23,7 +23,7 @@ ASSUMPTIONS = [
     "tolerance 1e-9 relative for pure relabellings (summation order may change with layout), 2e-5 across dtype width",
 ]
 
-TRANSFORMS = ["permute", "fortran", "strided", "width", "roll", "roll1", "reverse", "permute+roll", "fortran+roll1"]
+TRANSFORMS = ["permute", "fortran", "strided", "width", "roll", "roll1", "reverse", "permute+roll", "fortran+roll1", "f32+fortran", "f32+permute"]
 
 
 @st.composite
@@ -79,6 +79,8 @@ def transform(da, T, case):
             out = out.copy(data=big[..., ::2])
         elif t == "width":
             out = out.astype("float64")
+        elif t == "f32":
+            pass  # marker: the canonical object is built in single precision and stays so (layouts of float32 data)
         elif t in ("roll", "roll1"):
             k = 1 if t == "roll1" else case["roll"]
             out = out.roll(dir=k, roll_coords=True)
@@ -112,7 +114,7 @@ def check_layout(case, ctx):
 
 def _check_one(case, ctx):
     T = case["T"]
-    dtype = "float32" if "width" in T else "float64"
+    dtype = "float32" if ("width" in T or "f32" in T) else "float64"
     x = gen.build_dataarray(case["fg"], case["dg"], case["specs"], case["dims"], dtype=dtype)
     y = transform(x, T, case)
     aux = winds_of(case, x)
@@ -146,7 +148,7 @@ def _check_one(case, ctx):
     with ctx.lib("%s on %s layout" % (name, T)):
         rb = ops.apply(op, y, aux)
         rb = [r.compute() for r in rb] if isinstance(rb, tuple) else rb.compute()
-    rtol = 2e-5 if "width" in T else 1e-9
+    rtol = 2e-5 if ("width" in T or "f32" in T) else 1e-9
     if fam in ("peak", "peakdir", "peakwidth", "statsds") or name in ("dp",):
         rtol = max(rtol, 2e-6)  # float32 outputs
     if fam in ("width", "widthf", "peakwidth"):
@@ -155,7 +157,7 @@ def _check_one(case, ctx):
     if fam in ("width", "widthf", "peakwidth"):
         # compared through the radicand: rounding of the evaluation (float32 data under "width", float32 outputs of the peak
         # family, summation order otherwise) times the scale of the radicand (2 (180/pi)^2 deg^2 for spreads, O(1) otherwise)
-        eps = 3e-5 if "width" in T else 1e-7 if fam == "peakwidth" else 1e-10
+        eps = 3e-5 if ("width" in T or "f32" in T) else 1e-7 if fam == "peakwidth" else 1e-10
         rad = eps * (2.0 * (180.0 / np.pi) ** 2 if name in ("dspr", "fdspr", "dpspr") else 0.1 if name == "gw" else 1.0)
     atol_rel = 1e-7 if fam in ("width", "widthf", "peakwidth") else None
     if name in ("crsd", "momd1", "uss_x", "uss_y_depth"):
@@ -171,7 +173,7 @@ def _check_one(case, ctx):
 def np_case(draw):
     fg = draw(gen.freq_grid(2, 12))
     dg = draw(gen.dir_grid(2, 18, orders=("asc",)))
-    return dict(fg=fg, dg=dg, spec=draw(gen.spectrum(kinds=("multinoisy",))), T=draw(st.sampled_from(["fortran", "strided", "width", "roll", "roll1", "transposed-view"])),
+    return dict(fg=fg, dg=dg, spec=draw(gen.spectrum(kinds=("multinoisy",))), T=draw(st.sampled_from(["fortran", "strided", "width", "roll", "roll1", "transposed-view", "f32-fortran", "f32-transposed-view", "f32-strided"])),
                 roll=draw(st.integers(1, dg["n"] - 1)), method=draw(st.sampled_from(["ptm1", "ptm2", "ptm3"])), k=draw(st.integers(1, 5)), ihmax=draw(st.sampled_from([5, 100])),
                 wind=dict(wspd=draw(st.floats(2, 30)), wdir=draw(st.floats(0, 360)), dpt=draw(st.sampled_from([5.0, 40.0, 500.0]))))
 
@@ -181,8 +183,10 @@ def check_np(case, ctx):
 
     f, d = np.array(case["fg"]["f"]), np.array(case["dg"]["d"])
     T = case["T"]
-    E = gen.build_spectrum(case["spec"], len(f), len(d), dtype=np.float32 if T == "width" else np.float64)
+    E = gen.build_spectrum(case["spec"], len(f), len(d), dtype=np.float32 if (T == "width" or T.startswith("f32-")) else np.float64)
     E2, d2 = E, d
+    label = T
+    T = T[4:] if T.startswith("f32-") else T  # the same layouts of single-precision data
     if T == "fortran":
         E2 = np.asfortranarray(E)
     elif T == "transposed-view":
@@ -206,6 +210,7 @@ def check_np(case, ctx):
 
     with ctx.lib("np_%s" % case["method"]):
         a = run(E, d)
+    T = label
     with ctx.lib("np_%s on %s" % (case["method"], T)):
         b = run(E2, d2)
     if T in ("roll", "roll1"):
